@@ -27,7 +27,7 @@ REQUIRED = ["parse_sound", "last_member_decides", "lc_exact", "lc_exact_fails_wi
             "range_scan_stops_at_a_gap", "counters_read_back", "fact_store_bodies", "fact_store_keys",
             "new_transaction_sound", "signed_transaction_parses_back", "created_signed_parsed_admitted", "hex_round_trip", "fact_create_bodies", "json_branch_puts_no_demand_on_the_bytes",
             # deepening round 3: jwx.AlgorithmFitsKey inside the model, applied to the key the verifier resolved
-            "admitted_alg_fits_key", "alg_fits_ec_iff", "alg_must_fit_resolved_key", "fit_guard_must_see_the_resolved_key", "fact_alg_fits_key", "fact_add_write_body",
+            "admitted_alg_fits_key", "offered_bytes_alg_fits_key", "alg_fits_ec_iff", "alg_must_fit_resolved_key", "fit_guard_must_see_the_resolved_key", "fact_alg_fits_key", "fact_add_write_body",
             "transaction_counter_counts_admissions", "transaction_counter_unchanged_unless_admitted"]
 
 HEX64 = re.compile(r"^[0-9a-fA-F]{64}$")
